@@ -227,7 +227,7 @@ class MHLHistory:
         history.asc_mhl_path = asc_mhl_folder_path
 
         file_path = os.path.join(asc_mhl_folder_path, ascmhl_chainfile_name)
-        if os.path.exists(asc_mhl_folder_path) and not os.path.exists(file_path):
+        if os.path.isdir(asc_mhl_folder_path) and not os.path.exists(file_path):
             raise errors.NoMHLChainException(file_path)
         history.chain = chain_xml_parser.parse(file_path)
         if history.chain.generations:
